@@ -59,3 +59,13 @@ package runtime
 //@ func CheckHashedWitness
 //@ requires ic != nil && ic.VM != nil && wfSigners(ic)
 //@ ensures[witness] result1 == nil ==> result0 == ((ic.VM.calling != util.Uint160{} && hash == ic.VM.calling) || exists(i, 0, len(interop.signersOf(ic)), interop.signersOf(ic)[i].Account == hash && forall(j, 0, i, interop.signersOf(ic)[j].Account != hash) && allowed(interop.signersOf(ic)[i], ic)))
+
+// C16: System.Runtime.LoadScript hands the loaded script no flag its own context lacks and
+// nothing beyond read-only access.
+//@ prop C16
+//@ func LoadScript
+//@ may-panic
+//@ opt frame off
+//@ requires ic != nil && ic.VM != nil
+//@ opt stable ic.VM
+//@ call LoadDynamicScript requires[shrink] arg2 & ic.VM.flags == arg2 && arg2 & callflag.ReadOnly == arg2
